@@ -303,6 +303,43 @@ def r2(ctx, r):
         r.expect(ok, f, jump[0], "pointer loop", "a compression pointer is followed without the visited-set test and insert: a pointer loop never terminates", okdesc="jump behind not-visited test; target recorded first")
     else:
         r.fail(f, None, "pointer handling shape", "decodeNameWithLoopDetection: expected one jump, one range test, one visited test and one insert (found %d/%d/%d/%d)" % (len(jump), len(rng), len(vis), len(ins)))
+    # the position at which the caller resumes is fixed at the FIRST pointer of the name
+    rv = [e for e in common.returns(f)]
+    res = None
+    for e in rv:
+        v = strip_casts(e.node.get("v") or {})
+        if v.get("k") == "cond" and isinstance(v.get("c"), dict) and isinstance(v.get("t"), dict):
+            cvar, tvar = strip_casts(v["c"]), strip_casts(v["t"])
+            if cvar.get("k") == "var" and tvar.get("k") == "var":
+                res = [cvar["n"], tvar["n"]]
+    r.instance()
+    if res is None:
+        raise AnalysisBroken("decodeNameWithLoopDetection: return is not `jumped ? resume : offset`")
+    flag, resume = res[0], res[1]
+    vocab = Vocab(["j"])
+
+    def leaf_j(n):
+        return A("j") if n.get("k") == "var" and n["n"] == flag else None
+
+    def eff_j(e):
+        if e.kind != "stmt":
+            return None
+        a = asg(e.node)
+        if a and key_of(a[0]) == flag:
+            cv = const_value(strip_casts(a[1]))
+            return [("set", "j", bool(cv))] if cv is not None else [("havoc", "j")]
+        if e.node.get("k") == "decl":
+            for v in e.node["vars"]:
+                if v["n"] == flag:
+                    return [("set", "j", bool(const_value(strip_casts(v.get("init") or {}))))]
+        return None
+    paj = PredAbs(f, vocab, leaf_j, eff_j, eh=False)
+    ws = [e for e in f.stmts() if asg(e.node) and key_of(asg(e.node)[0]) == resume]
+    sets_ = [e for e in f.stmts() if asg(e.node) and key_of(asg(e.node)[0]) == flag and const_value(strip_casts(asg(e.node)[1])) == 1]
+    okr = len(ws) >= 1 and all(paj.entails(e, Not(A("j"))) for e in ws) and all(lin(asg(e.node)[1]) == (2, ("offset",)) for e in ws) and len(sets_) >= 1 and all(any(w.block is s_.block for w in ws) for s_ in sets_)
+    r.expect(okr, f, ws[0] if ws else None, "resume position overwritten", "`%s` (the position after the compressed name, returned to the caller) is assigned on a path where a pointer was already followed, or is not `offset + 2` "
+             "of the first pointer: with chained pointers the caller resumes behind the LAST pointer followed, somewhere else in the message, and reads TYPE/CLASS/TTL from the wrong place" % resume,
+             okdesc="resume position = offset + 2 at the first pointer only")
     # the pointer is read behind checkBounds(offset, 2) and masked to 14 bits
     pd = [v for e in f.stmts() if e.node.get("k") == "decl" for v in e.node["vars"] if v["n"] == "pointer"]
     r.instance()
@@ -597,7 +634,24 @@ def r8(ctx, r):
         r.expect(len(lb) == 1, g, None, "%s length" % nm, "%s does not require exactly %d bytes" % (nm, want), okdesc="%s: rdata.size() == %d" % (nm, want))
 
 
+def anchors(ctx, r):
+    fb = ctx.fb()
+    tab = [(dm(ctx, "parseHeader"), ["offset", "size", "data"]), (dm(ctx, "parseQuestion"), ["offset", "size", "data"]), (dm(ctx, "parseResourceRecord", 5), ["offset", "size", "data", "rr"]),
+           (dm(ctx, "decodeNameWithLoopDetection"), ["offset", "size", "data", "pointer", "visitedPointers", "length", "totalLength", "name"]),
+           (dm(ctx, "decodeNameFromRdata"), ["rdataOffset", "rdataSize", "rdata", "consumedInRdata", "pointer", "messageSize"]), (dm(ctx, "parseTxtRecord"), ["offset", "rr"]), (dm(ctx, "parseSoaRecord"), ["offset", "rr"]),
+           ([g for g in fb.funcs(DT + "::handleTcpData") if g.ok][0], ["buffer", "messageLength", "messageData"]), ([g for g in fb.funcs(DT + "::processResponse") if g.ok][0], ["data", "size"]),
+           ([g for g in fb.funcs(DC + "::put", DCF) if g.ok][0], ["ttl", "key"]), ([g for g in fb.funcs(DC + "::calculateResultTtl", DCF) if g.ok][0], ["min_ttl", "result"])] + \
+        [(g, ["expiration", "customTtl"]) for g in fb.funcs(EC + "::set") if g.ok]
+    for f, names in tab:
+        common.require_names(f, names)
+        r.instance()
+        r.ok("%s: %s" % (last(f.name), ", ".join(names)))
+
+
 def run(ctx, ck):
+    r0 = ck.run_rule("C19-R0", "the local names the rules are anchored on exist (a rename makes the analysis refuse — exit 2 — instead of raising a false alarm)", "anchor table", lambda r: anchors(ctx, r))
+    if r0.broken:
+        return
     ck.run_rule("C19-R1", "every decoder read lies inside the window established since the cursor last moved; checkBounds cannot wrap", "A7 cursor-window abstract interpretation (checkBounds idiom, symbolic lengths)", lambda r: r1(ctx, r))
     ck.run_rule("C19-R2", "compression pointers: range test, visited set, limits, progress", "A2 dominance + cycle analysis", lambda r: r2(ctx, r))
     ck.run_rule("C19-R3", "section loops are driven by the 16-bit header counts through the guarded readers", "A2", lambda r: r3(ctx, r))
